@@ -1,7 +1,7 @@
 (** C18 — checkpoints round-trip exactly and a restarted run continues the original one.
     Only statements, [exact]s and [Print Assumptions]; proofs live in Checkpoint.v, Driver.v, CkNames.v.
     What the faithful model of fullSimulation.py REFUTES is stated as such ([..._refuted]). *)
-From Coq Require Import List Arith NArith Lia.
+From Coq Require Import List Arith NArith Lia Permutation.
 Import ListNotations.
 From PGV Require Import Blocks NdIndex Checkpoint Driver CkNames.
 
@@ -137,6 +137,21 @@ Theorem restart_equiv_lines_aligned : forall (F D : Type) (step : F -> F) (diag 
   ck_files F D stu = ck_files F D st1 ++ ck_files F D st2.
 Proof. exact ck_restart_equiv_aligned. Qed.
 Print Assumptions restart_equiv_lines_aligned.
+
+(** the rows of an uninterrupted run that ends on a save step (T = q * saveStep): at every save step the
+    row of that time followed by the rows of the saveStep-1 times before it - every time 0..T exactly once,
+    each with the diagnostics of the field of its time *)
+Theorem run_rows_aligned : forall (F D : Type) (step : F -> F) (diag : F -> D) S, 0 < S ->
+  forall tN orc f0 q, ck_count tN orc = q * S ->
+  ck_lines F D (ck_run F D step diag S tN orc (ck_fresh F D diag S f0)) = ck_rows_spec F D step diag S f0 q.
+Proof. exact ck_run_rows_aligned. Qed.
+Print Assumptions run_rows_aligned.
+
+Theorem rows_each_time_once : forall (F D : Type) (step : F -> F) (diag : F -> D) S, 0 < S ->
+  forall f0 q, Permutation (ck_rows_spec F D step diag S f0 q)
+                           (map (ck_L F D step diag f0) (seq 0 (q * S + 1))).
+Proof. exact ck_rows_spec_perm. Qed.
+Print Assumptions rows_each_time_once.
 
 (** REFUTED for stop times that are not multiples of saveStep (saveStep 3, stop after 1 step):
     continuing to step 6 never prints the row of time 3; continuing to step 2 prints a zero row *)
